@@ -1032,3 +1032,13 @@ func Rest(s *rspec.Spec) string {
 	}
 	return strings.Join(parts, "|")
 }
+
+// ---------------------------------------------------- exported constructors --
+// (used by the builder driver, which hands real objects to the API's methods)
+
+func MountFromVal(dest, val string) *api.Mount                    { return mountFromVal(dest, val) }
+func DeviceFromVal(path, val string) *api.LinuxDevice             { return deviceFromVal(path, val) }
+func HookFromID(id string) *api.Hook                              { return hookFromID(id) }
+func PI64(s string) int64                                         { return pi64(s) }
+func PU64(s string) uint64                                        { return pu64(s) }
+func FromAPIResourcesRaw(r *api.LinuxResources) (SMap, KVs, SMap) { return fromAPIResources(r) }
